@@ -14,6 +14,9 @@ R10.6 result provenance: min/max/if return one of their arguments - no constant 
 R10.7 `contains(t, x)` is slice membership of x in t; `contains_any(t, (y1, y2))` is true exactly on the paths where some membership
       test `t.contains(yi)` was true; a non-tuple first argument (or non-tuple second argument of contains_any) is ExpectedTuple;
       a tuple-typed or empty element to look for is a type error on every path, wherever it stands and whatever the other elements match.
+R10.8 str::to_lowercase / str::to_uppercase / str::trim apply exactly the same-named std string method to a String argument and
+      reject every other type with ExpectedString; str::from yields a String for every type, the string itself for a String and
+      the std to_string of the payload (or of the value) otherwise.
 Not decided: any numeric result (libm), shift values outside 0..63, min/max with NaN."""
 import re
 import tables
@@ -52,6 +55,7 @@ def run(ctx):
     r105(ctx, prog, B)
     r106(ctx, prog, B)
     r107(ctx, prog, B)
+    r108(ctx, prog, B)
     impl_chain(ctx, prog)
     if ctx.tier == 'thorough':
         pf = ctx.prog(features=('rand', 'regex', 'serde'))
@@ -524,3 +528,50 @@ def r107(ctx, prog, B):
     else:
         ctx.violation('R10.7', 'contains_any', 'missing', 'contains_any has no arm')
     ctx.floor('R10.7', 'membership_cases', n, 40)
+
+
+def r108(ctx, prog, B):
+    n = 0
+
+    def unwrap_conv(x):
+        while x[0] == 'app' and len(x[2]) == 1 and x[1].split('::')[-1].split('<')[0] in ('to_string', 'to_owned', 'into', 'from', 'clone'):
+            x = x[2][0]
+        return x
+    for name, meth in (('str::to_lowercase', 'to_lowercase'), ('str::to_uppercase', 'to_uppercase'), ('str::trim', 'trim')):
+        if name not in B.closures:
+            ctx.violation('R10.8', name, 'missing', '%s has no arm' % name)
+            continue
+        for ty in B_TYPES:
+            arg = B.tuple([]) if ty == 'Tuple' else B.V(ty, 's')
+            ps = B.call(name, arg)
+            got = [fmt(p[0])[:110] for p in (ps or [])]
+            n += 1
+            if ty == 'String':
+                good = ps is not None and len(ps) == 1 and is_adt(ps[0][0], 'result::Result', 'Ok') and is_adt(ps[0][0][4][0], 'value::Value', 'String')
+                if good:
+                    core = unwrap_conv(ps[0][0][4][0][4][0])
+                    good = core[0] == 'app' and core[1].endswith('str>::' + meth) and core[2] == (SYM('s'),)
+                ctx.check(good, 'R10.8', '%s[String]' % name, 'method', '%s(s) is str::%s(s) as a String (found %s)' % (name, meth, got))
+            else:
+                ctx.check(ps is not None and len(ps) >= 1 and all(is_err(p[0], 'ExpectedString') and p[0][4][0][4] == (arg,) for p in ps), 'R10.8', '%s[%s]' % (name, ty), 'type-error', '%s rejects a non-string with ExpectedString carrying it (found %s)' % (name, got))
+    if 'str::from' in B.closures:
+        for ty in B_TYPES:
+            arg = B.tuple([B.V('Int', 'e')]) if ty == 'Tuple' else B.V(ty, 's')
+            ps = B.call('str::from', arg)
+            got = [fmt(p[0])[:110] for p in (ps or [])]
+            n += 1
+            good = ps is not None and len(ps) == 1 and is_adt(ps[0][0], 'result::Result', 'Ok') and is_adt(ps[0][0][4][0], 'value::Value', 'String')
+            if good:
+                sv = ps[0][0][4][0][4][0]
+                if ty == 'String':
+                    good = unwrap_conv(sv) == SYM('s')
+                elif ty in ('Int', 'Float', 'Boolean'):
+                    good = sv[0] == 'app' and sv[1].split('::')[-1].split('<')[0] == 'to_string' and sv[2] in ((SYM('s'),), (arg,))
+                elif ty == 'Tuple':
+                    good = sv[0] == 'app' and sv[1].split('::')[-1].split('<')[0] == 'to_string' and sv[2] == (arg,)
+                else:
+                    good = (sv[0] == 'c' and sv[1] == '()') or (sv[0] == 'app' and sv[2] in ((arg,), (C('()'),)))
+            ctx.check(good, 'R10.8', 'str::from[%s]' % ty, 'to-string', 'str::from yields the string itself for a String, the std to_string of the payload / value otherwise, "()" for the empty value (found %s)' % got)
+    else:
+        ctx.violation('R10.8', 'str::from', 'missing', 'str::from has no arm')
+    ctx.floor('R10.8', 'string_function_cases', n, 24)
